@@ -1,7 +1,7 @@
 (* C07 property theorems ONLY (each closed by an already proved lemma) + assumptions. *)
 From Coq Require Import List NArith Bool Arith Lia.
 From Coq Require Import Reals.
-From RV Require Import C06.Model C06.Index C06.Run C06.Cadence C06.CadenceR C07.Crash C07.Prefix C07.Restart C07.Attach.
+From RV Require Import C06.Model C06.Index C06.Cadence C06.CadenceR C06.Writer C07.Crash C07.Prefix C07.Restart C07.RestartEq C07.Attach.
 Import ListNotations.
 Open Scope N_scope.
 
@@ -61,6 +61,38 @@ Theorem C07_restart_write : forall c, wf_cfg c -> forall h fs0 ds d d' k,
   exists fl, open_archive c F = OOk (mkI (blobs_of c h fs0 (ds ++ [d'])) fl).
 Proof. exact restart_write. Qed.
 Print Assumptions C07_restart_write.
+
+(* the tail walk of reb_simulation_save_to_file (repair_walk), on the crash image of EVERY cut, returns the end of
+   the last complete blob = |A| (no hypothesis on the payload: the walk itself cannot be spoofed by a single crash) *)
+Theorem C07_repair_walk_finds_last_intact : forall c, wf_cfg c -> forall h fs0 ds d k,
+  Forall (small_d c) ds -> small_d c d -> N.of_nat (length ds) + 1 < 2^32 -> (k < 24 + length (ser d ++ endhdr c))%nat ->
+  let A := archive c h fs0 ds in
+  let img := crash_image A (append_trace c h fs0 ds d) k in
+  repair_walk c (S (length img)) img (lenN (h ++ ser fs0 ++ endhdr c)) (lenN (h ++ ser fs0 ++ endhdr c) + 12) = lenN A.
+Proof. exact repair_crash. Qed.
+Print Assumptions C07_repair_walk_finds_last_intact.
+
+(* restart_equiv, full: for the crash image of ANY cut, if the corruption test of save_to_file fires on it (no_spoof)
+   or the image is the intact archive (cuts <= 8 bytes: C07_crash_image_le8), the append save_to_file performs
+   (model save_append: walk over blob 0, corruption test, repair walk, in-place patch, write) yields byte for byte
+   (A with the new delta appended) ++ stale tail, and opening it exposes exactly the snapshots of that archive *)
+Theorem C07_restart_equiv : forall c, wf_cfg c -> forall peq h fs0 ds d k h' s',
+  wf_header c h -> wf_d c fs0 -> 2 <= ver_of c fs0 0 -> Forall (small_d c) ds -> small_d c d ->
+  length h' = 64%nat -> wf_d c s' -> small_d c (binary_diff peq fs0 s') ->
+  N.of_nat (length ds) + 1 < 2^32 -> (k < 24 + length (ser d ++ endhdr c))%nat ->
+  let A := archive c h fs0 ds in
+  let img := crash_image A (append_trace c h fs0 ds d) k in
+  let d' := binary_diff peq fs0 s' in
+  detects c img = true \/ img = A ->
+  let F := save_append peq c img (stream_of c h' s') in
+  (exists stale, F = archive c h fs0 (ds ++ [d']) ++ stale) /\
+  exists fl, open_archive c F = OOk (mkI (blobs_of c h fs0 (ds ++ [d'])) fl).
+Proof. exact restart_equiv. Qed.
+Print Assumptions C07_restart_equiv.
+
+Theorem C07_crash_image_le8 : forall c h fs0 ds d k, (k <= 8)%nat ->
+  crash_image (archive c h fs0 ds) (append_trace c h fs0 ds d) k = archive c h fs0 ds.
+Proof. exact crash_image_le8. Qed.
 
 (* ... and the hypothesis that the corruption test of save_to_file fires (no_spoof) is necessary: a payload that
    looks like END ++ trailer with a consistent back-link defeats it (cut 92); one byte earlier it fires (cut 91).
